@@ -382,7 +382,7 @@ func TestC18(t *testing.T) {
 	prog := c18Prog.On(col, "rapid: role-typed programs - numeric variables only in print / comparison / case-when / arithmetic positions, arrays in for / array-filter / index / size / contains positions, maps in lookup / size / contains, an ordered map (ms) only in lookup and size, a byte slice (bs) only printed - rendered against the canonical realisation ([]any, map[string]any, int, float64, string) and against a realisation in which every node independently takes one of: any fitting numeric width, float32 when exact, typed slice, fixed array, typed map, ordered YAML map (ms), []byte (bs), Drop wrapping (also nested) at any depth, pointer on variables and map entries. Metamorphic oracle: identical result. Non-trivial: renders to non-empty output; distinct by template + representation fingerprint", false)
 	prof := hx.FullProfile()
 	prof.Tablerow, prof.NumPrint, prof.OrdMap, prof.TypedNames = true, true, true, true
-	col.Rapid(prog.Sub, env.PerShard(env.Pick(30000, 1500000)), func(t *rapid.T) {
+	col.Rapid(prog.Sub, env.PerShard(env.Pick(150000, 1500000)), func(t *rapid.T) {
 		p := hx.GenProgram(t, prof)
 		c := &c18Case{P: p, R1: rerepBinds(t, p.Binds)}
 		if v := prog.Run(c); v != nil {
@@ -391,7 +391,7 @@ func TestC18(t *testing.T) {
 	})
 
 	eq := c18Eq.On(col, "rapid: a logical value (scalar or array nested to depth 2) realised twice with independently drawn representations at every node (numeric widths, typed slices, fixed arrays, Drops at any depth) and a second value z; x == y, x != y, x == z, case x / when z / when y, array-of-arrays contains y / z, uniq over [x, y, x]; metamorphic oracle: same result as with canonical representations. Non-trivial: renders; distinct by the three representation fingerprints", false)
-	col.Rapid(eq.Sub, env.PerShard(env.Pick(20000, 1000000)), func(t *rapid.T) {
+	col.Rapid(eq.Sub, env.PerShard(env.Pick(150000, 1500000)), func(t *rapid.T) {
 		v := c18GenValue(t, 2)
 		if v.K != "arr" && rapid.Bool().Draw(t, "wrap") {
 			v = hx.SArr(v, c18GenValue(t, 1))
